@@ -11,7 +11,8 @@
 (***************************************************************************)
 EXTENDS Paths
 
-CONSTANTS PNodes, PTMax, PDir, PLoops, PKF
+CONSTANTS PNodes, PTMax, PDir, PLoops, PKF,
+          PSparse    \* TRUE: every pair is present at no or exactly one instant (larger node sets stay enumerable)
 
 VARIABLE pg      \* the presence relation: set of <<a, b, t>> (ordered pairs)
 vars == <<pg>>
@@ -21,7 +22,10 @@ BasePairs == IF PDir THEN { <<a, b>> \in PNodes \X PNodes : PLoops \/ a # b }
              ELSE { <<a, b>> \in PNodes \X PNodes : a < b \/ (PLoops /\ a = b) }
 Flat3(S) == { <<x[1][1], x[1][2], x[2]>> : x \in S }
 Sym3(S) == IF PDir THEN S ELSE S \cup { <<x[2], x[1], x[3]>> : x \in S }
-Domain == { Sym3(Flat3(S)) : S \in SUBSET (BasePairs \X PTimes) }
+Domain == IF PSparse
+          THEN { Sym3({ <<p[1], p[2], f[p]>> : p \in { q \in BasePairs : f[q] >= 0 } })
+                   : f \in [BasePairs -> PTimes \cup {0 - 1}] }
+          ELSE { Sym3(Flat3(S)) : S \in SUBSET (BasePairs \X PTimes) }
 
 IdsOf(P) == SortedSeq({ x[3] : x \in P })
 
